@@ -464,6 +464,92 @@ func c18Upload(c *Ctx, pr *PropertyRun, prop string) {
 			r.Violation("double-send|"+fnKey(body), p.Pos(body.Pos()), fmt.Sprintf("a path through the upload goroutine sends %d times on the done channel (capacity %d): the goroutine can block forever and outlive Close", v.max, size), nil)
 		}
 	}
+	// the pipe's read end IS the request body (or is wrapped by a type of the
+	// library whose Close closes it): the transport closes the body when it
+	// stops sending (early answer, dropped connection, cancellation), and that
+	// Close is what makes a blocked or later Write on the pipe return. A
+	// wrapper without Close (net/http adds a no-op one) cuts that chain: the
+	// caller's Write blocks forever.
+	eachCall(create, func(site ssa.CallInstruction) {
+		if calleeName(site.Common()) != "io.Pipe" {
+			return
+		}
+		call, ok := site.(*ssa.Call)
+		if !ok {
+			return
+		}
+		for _, ref := range refsOf(call) {
+			ex, ok := ref.(*ssa.Extract)
+			if !ok || ex.Index != 0 {
+				continue
+			}
+			r.Role("pipe-read-end")
+			direct := false
+			var bad []string
+			var badPos ssa.Instruction
+			var visit func(v ssa.Value, depth int)
+			visit = func(v ssa.Value, depth int) {
+				if depth > 4 {
+					return
+				}
+				for _, u := range refsOf(v) {
+					switch x := u.(type) {
+					case *ssa.MakeInterface:
+						visit(x, depth+1)
+					case *ssa.ChangeInterface:
+						visit(x, depth+1)
+					case *ssa.Store:
+						if x.Val != v {
+							continue
+						}
+						fa, isFA := x.Addr.(*ssa.FieldAddr)
+						if !isFA {
+							continue // a captured local
+						}
+						n := namedOf(fa.X.Type())
+						if n == nil || n == p.NamedType(pkgWebdav, "fileWriter") {
+							continue
+						}
+						if !closesPipe(p, n) {
+							bad = append(bad, "stored in a "+n.Obj().Name()+", which has no Close method that closes the pipe's read end")
+							badPos = x
+						} else {
+							direct = true
+						}
+					case ssa.CallInstruction:
+						cc := x.Common()
+						if !cc.IsInvoke() && len(cc.Args) > 0 && cc.Args[0] == v && cc.Signature().Recv() != nil {
+							continue // a method of the pipe reader itself
+						}
+						callee := cc.StaticCallee()
+						name := calleeName(cc)
+						if callee != nil && p.InModule(callee) || strings.HasPrefix(name, "net/http.NewRequest") {
+							direct = true
+							continue
+						}
+						if _, isGo := x.(*ssa.Go); isGo {
+							continue
+						}
+						bad = append(bad, "handed to "+name+", whose result does not close the pipe")
+						badPos = x
+					}
+				}
+			}
+			visit(ex, 0)
+			ok = direct && len(bad) == 0
+			r.Ob(ok)
+			if !ok {
+				pos := p.instrPos(site)
+				why := "never handed to the request"
+				if len(bad) > 0 {
+					why = strings.Join(bad, "; ")
+					pos = p.instrPos(badPos)
+				}
+				r.Violation("pipe-body|"+fnKey(create), pos, "the read end of the upload pipe is "+why+": when the transport stops sending and closes the request body, the pipe stays open and the caller's Write blocks forever", nil)
+			}
+		}
+	})
+	r.RequireRole("pipe-read-end")
 	// fileWriter.Close: returns <-fw.done on the path where pw.Close() == nil
 	r.Role("close-method")
 	var recvRet, errRet bool
@@ -703,4 +789,35 @@ func chanUses(ch *ssa.MakeChan) []ssa.Instruction {
 	}
 	visit(ch, 0)
 	return out
+}
+
+// closesPipe: the named type (or its pointer) has a Close method, defined in
+// the module, that calls Close/CloseWithError of an *io.PipeReader or Close of
+// an io.Closer it holds.
+func closesPipe(p *Program, n *types.Named) bool {
+	for _, t := range []types.Type{n, types.NewPointer(n)} {
+		sel := p.Prog.MethodSets.MethodSet(t).Lookup(nil, "Close")
+		if sel == nil {
+			continue
+		}
+		fn := p.Prog.MethodValue(sel)
+		if fn == nil || len(fn.Blocks) == 0 || !p.InModule(fn) {
+			continue
+		}
+		found := false
+		eachCall(fn, func(site ssa.CallInstruction) {
+			cc := site.Common()
+			switch calleeName(cc) {
+			case "(*io.PipeReader).Close", "(*io.PipeReader).CloseWithError":
+				found = true
+			}
+			if cc.IsInvoke() && cc.Method.Name() == "Close" {
+				found = true
+			}
+		})
+		if found {
+			return true
+		}
+	}
+	return false
 }
